@@ -66,6 +66,8 @@ REV = {
  "rev-C03a-fix": ("C03", "C03-unwind-whole-batch"),
  "rev-C03b-fix": ("C03", "C03-load-cross-partition-linkage"),
  "rev-C05-fix":  ("C05", "C05-dependency-all-started"),
+ # /repo aed7d1e (filter_ref on tuple components; fixes/C05-filter-ref-on-components.diff is that commit)
+ "revert-aed7d1e": ("C05", "C05-filter-ref-on-components"),
 }
 # the coordinator's independent seeded changes (patch files)
 SEED = {
